@@ -150,7 +150,8 @@ def server_run(streams):
             return web.Response()
         app = web.Application()
         app.router.add_route("*", "/{tail:.*}", handler)
-        runner = web.AppRunner(app)
+        # auto_decompress off: this oracle is about framing; a garbage body under Content-Encoding: gzip is C09's subject
+        runner = web.AppRunner(app, auto_decompress=False)
         await runner.setup()
         loop = asyncio.get_running_loop()
         for s in streams:
